@@ -66,20 +66,21 @@ theorem C07_fix_reader_settles (known : Bytes → Bool) (decode : Bytes → Exce
 /-- `8=FIX.4.4␁9=-23␁35=0␁` : BodyLength −23 makes the computed frame length 16 − 23 + 7 = 0 -/
 private def neg23 : Bytes := [56, 61, 70, 73, 88, 46, 52, 46, 52, 1, 57, 61, 45, 50, 51, 1, 51, 53, 61, 48, 1]
 
-/-- framing alone hands out the EMPTY frame and leaves the buffer untouched (a reader that ignored this frame would spin) … -/
-example : fixDeser neg23 = .ok (some ([], neg23)) := by decide
+/-- since /repo 658ee1f a negative BodyLength is rejected outright (before: framing handed out the EMPTY frame and left the buffer
+    untouched, and only the dictionary dispatch turned that into `KeyError`; `Witness/C04Bytes.lean` keeps the old reader) … -/
+example : fixDeser neg23 = .error .value := by decide
 
-/-- … the dictionary dispatch turns it into `KeyError`: the reader stops, the session closes -/
-example : fixDeserD (fun ty => ty == [48] || ty == [53]) (fun _ => .ok ()) neg23 = .error .key := by decide
+/-- … so the reader stops, the session closes, whatever the dispatch would have said -/
+example : fixDeserD (fun ty => ty == [48] || ty == [53]) (fun _ => .ok ()) neg23 = .error .value := by decide
 example : (step (fixProtoD (fun ty => ty == [48] || ty == [53]) (fun _ => .ok ())) { buf := neg23 } .tick).stopped = true := by decide
 
-/-- a BodyLength negative beyond the buffer (`9=-99`: frame length −76): `buf[:-76]` is empty again, nothing is consumed -/
+/-- a BodyLength negative beyond the buffer (`9=-99`; before the repair `buf[:-76]`, empty again, nothing consumed) -/
 private def neg99 : Bytes := [56, 61, 70, 73, 88, 46, 52, 46, 52, 1, 57, 61, 45, 57, 57, 1, 51, 53, 61, 48, 1]
-example : fixDeser neg99 = .ok (some ([], neg99)) := by decide
+example : fixDeser neg99 = .error .value := by decide
 
-/-- a slightly more negative one (`9=-25`: frame length −2) cuts the last two bytes OFF: frame = `buf[:-2]`, rest = `buf[-2:]` -/
+/-- `9=-25` (before the repair: frame length −2, the last two bytes of WHATEVER HAD ARRIVED cut off — segmentation dependent) -/
 private def neg25 : Bytes := [56, 61, 70, 73, 88, 46, 52, 46, 52, 1, 57, 61, 45, 50, 53, 1, 51, 53, 61, 48, 1]
-example : fixDeser neg25 = .ok (some (neg25.take 19, [48, 1])) := by decide
+example : fixDeser neg25 = .error .value := by decide
 
 /-- a zero-length SoupBinTCP frame (`00 00`) is rejected (no type byte): the reader stops -/
 example : soupDeser [0, 0, 0, 1, 72] = .error .invalidSoup := by decide
